@@ -5,7 +5,7 @@
    theorem says exactly which threshold bands it excludes. *)
 From Coq Require Import Reals List Bool Lra.
 From Verif Require Import Scalar RInst QuatKernels Conversions Quat QuatAlg
-  ConvEuler ConvMatrix ConvAxis ConvHomochoric Atan2 ConvEulerInv ConvInj.
+  ConvEuler ConvMatrix ConvAxis ConvHomochoric Atan2 ConvEulerInv ConvInj Rodrigues3 ConvRodrigues3.
 Local Open Scope R_scope.
 
 (* -- orientation matrix ---------------------------------------------------- *)
@@ -163,6 +163,46 @@ Theorem C01_rodrigues_roundtrip_partial : forall x y z w : R,
   ro2ax ROps (ax2ro ROps (x, y, z, w)) = (x, y, z, w).
 Proof. exact ro2ax_ax2ro. Qed.
 Print Assumptions C01_rodrigues_roundtrip_partial.
+
+(* -- three-component Rodrigues vector (Model/Rodrigues3.v: Quaternion.axis, .angle,
+   to_rodrigues(), from_rodrigues(ro)) ------------------------------------------------ *)
+(* q -> axis * tan(angle/2) -> from_rodrigues returns q for 0 < a and -q for a < -1e-6
+   (Quaternion.axis negates the vector part only below -1e-6), outside the small-angle
+   band of ax2qu; rotations by exactly pi (a = 0: tan(pi/2)) have no meaning over R and
+   are covered by the floating-point correspondence and the oracle stratum anglepi *)
+Theorem C01_rodrigues3_roundtrip : forall a b c d : R,
+  a * a + b * b + c * c + d * d = 1 -> a * a < 1 ->
+  0 < a \/ a < -1 / 1000000 ->
+  1 / 100000000 <= 2 * atan (sqrt (1 - a * a) / Rabs a) ->
+  from_ro3 ROps (to_ro3 ROps (a, b, c, d) (a, b, c, d)) = (a, b, c, d) \/
+  from_ro3 ROps (to_ro3 ROps (a, b, c, d) (a, b, c, d)) = qneg ROps (a, b, c, d).
+Proof. exact ro3_roundtrip. Qed.
+Print Assumptions C01_rodrigues3_roundtrip.
+
+(* the hypothesis 0 < a \/ a < -1e-6 is forced: for -1e-6 <= a < 0 the axis is not negated and
+   the round trip returns (-a, b, c, d), a rotation about the same axis whose angle differs by
+   4 asin |a| <= 4e-6 rad (below the oracle's tolerance; recorded in design.d/C01.md) *)
+Theorem C01_rodrigues3_roundtrip_band : forall a b c d : R,
+  a * a + b * b + c * c + d * d = 1 -> -1 / 1000000 <= a < 0 ->
+  1 / 100000000 <= 2 * atan (sqrt (1 - a * a) / Rabs a) ->
+  from_ro3 ROps (to_ro3 ROps (a, b, c, d) (a, b, c, d)) = (- a, b, c, d).
+Proof. exact ro3_roundtrip_band. Qed.
+Print Assumptions C01_rodrigues3_roundtrip_band.
+
+Example C01_rodrigues3_nonvacuous :
+  let a := 1 / 2 in a * a + a * a + a * a + a * a = 1 /\ a * a < 1 /\ 0 < a /\
+  1 / 100000000 <= 2 * atan (sqrt (1 - a * a) / Rabs a).
+Proof.
+  cbv zeta. repeat split; try lra.
+  assert (H : 1 <= sqrt (1 - 1 / 2 * (1 / 2)) / Rabs (1 / 2)).
+  { rewrite Rabs_right by lra. apply Rmult_le_reg_r with (1 / 2); [lra|].
+    unfold Rdiv at 2. rewrite Rmult_assoc, Rinv_l by lra. rewrite Rmult_1_r, Rmult_1_l.
+    apply Rsqr_incr_0_var; [|apply sqrt_pos]. rewrite Rsqr_sqrt by lra. unfold Rsqr. lra. }
+  pose proof PI2_1 as HP.
+  assert (atan 1 <= atan (sqrt (1 - 1 / 2 * (1 / 2)) / Rabs (1 / 2))).
+  { destruct H as [H|H]; [left; apply atan_increasing; exact H|right; rewrite <- H; reflexivity]. }
+  rewrite atan_1 in *. lra.
+Qed.
 
 (* non-vacuity of the guards: q = (1/2,1/2,1/2,1/2) *)
 Example C01_guards_nonvacuous :
